@@ -197,28 +197,45 @@ fn(SF + "NBC_FarEnough._is_nbc_far_enough", params={"ind": "ref:Individual", "ce
 
 
 macro("MEAN_OF", ["d"], "ite(len(cur_pop(d)) == 0, None, MEANG(cur_pop(d)))")
+macro("ConsiderFE", ["flt", "d"], "d._active")
+macro("ConsiderNBC", ["flt", "d"], "d._active or not flt.check_only_active")
 
 
-def far_enough_filter(cls):
-    """FarEnough / NBC_FarEnough: nested loops (candidate records, then the demes of the target level).  Proved: the filter only
-    removes.  The distance clause of C09 (every kept seed is farther than the threshold from every considered deme) is NOT proved: it needs
-    the position of a deme in the filtered sibling list, which E-matching does not find through the comprehension (bounded check instead)."""
+def far_enough_filter(cls, consider, threshold):
+    """FarEnough / NBC_FarEnough: nested loops (candidate records, then the considered demes of the target level).  Proved: the filter
+    only removes (C10), and every kept candidate is farther than the threshold from the centroid of every considered deme of the target
+    level (C09).  The inner invariant speaks about the demes of the level through their position in the filtered sibling list
+    (comp_rank): that is the witness E-matching cannot find by itself."""
     rec = "candidates[deme]"
+    krec = "candidates[candidates.keys()[k]]"
+    lvl = "tree._levels[deme._level + 1]"
+    macro("FarFromLevel_" + cls, ["flt", "x", "t", "l", "thr"],
+          f"forall(lambda i: imp(0 <= i < len(t._levels[l]) and {consider}(flt, t._levels[l][i]), "
+          "DIST(flt.norm_ord, x.genome, MEAN_OF(t._levels[l][i])) > thr), pat=t._levels[l][i])")
+    all_far = (f"forall(lambda j: imp(0 <= j < len({krec}.individuals), FarFromLevel_{cls}(self, {krec}.individuals[j], tree, "
+               f"candidates.keys()[k]._level + 1, {threshold.replace(rec, krec)})), pat={krec}.individuals[j])")
     refine(SF + cls + ".__call__", SF + "DemeLevelCandidatesFilter.__call__",
-           locals={"child_seeds": "list[ref:Individual]", "child_siblings": "list[ref:AbstractDeme]"},
+           locals={"child_seeds": "list[ref:Individual]"},
            requires=[cl("populated_demes", "forall(lambda l, i: imp(0 <= l < len(tree._levels) and 0 <= i < len(tree._levels[l]), "
                         "len(cur_pop(tree._levels[l][i])) > 0), pat=tree._levels[l][i])")],
            modifies=IND_FRAME,
-           loops={0: dict(index="q", modifies=IND_FRAME, invariant=KEYS_LOOP),
+           loops={0: dict(index="q", modifies=IND_FRAME, invariant=KEYS_LOOP + [
+                      cl("inv_far", f"forall(lambda k: imp(0 <= k < q, {all_far}), pat=candidates.keys()[k])", tags="C09")]),
                   1: dict(index="s", modifies=[], invariant=[
                       cl("inv_from_candidates", f"forall(lambda j: imp(0 <= j < len(child_seeds), WasCandidate({rec}, child_seeds[j])), "
                          "pat=child_seeds[j])", tags="C10"),
+                      cl("inv_far_from_handled", f"forall(lambda j: imp(0 <= j < len(child_seeds), forall(lambda i: imp(0 <= i < len({lvl}) "
+                         f"and {consider}(self, {lvl}[i]) and comp_rank(child_siblings, i) < s, "
+                         f"DIST(self.norm_ord, child_seeds[j].genome, MEAN_OF({lvl}[i])) > {threshold}), pat={lvl}[i])), "
+                         "pat=child_seeds[j])", tags="C09"),
                       cl("inv_seeds_list", f"child_seeds != None and (child_seeds == old({rec}.individuals) or "
-                         "(fresh(child_seeds) and kind(child_seeds) == 0))")])})
+                         "(fresh(child_seeds) and kind(child_seeds) == 0))")])},
+           ensures=[cl("accepted_sprouts_are_far_from_every_considered_deme",
+                       f"forall(lambda k: imp(0 <= k < len(candidates.keys()), {all_far}), pat=candidates.keys()[k])", tags="C09")])
 
 
-far_enough_filter("FarEnough")
-far_enough_filter("NBC_FarEnough")
+far_enough_filter("FarEnough", "ConsiderFE", "self.min_distance")
+far_enough_filter("NBC_FarEnough", "ConsiderNBC", "self.min_distance_factor * candidates[deme].features.nbc_mean_distance")
 
 # LevelLimit: per level, the candidates of all parents on that level are ranked together; each record keeps those strictly better than
 # the first one that does not fit.  Proved: only removes.  The counting clause of C08/C10 (at most the free slots survive) needs a
